@@ -227,6 +227,47 @@ func (s *Sim) opNFT(op Op) *Violation {
 			s.NFTClasses[c.Name] = append(s.NFTClasses[c.Name], class)
 		}
 		return s.record(st)
+	case "nftforge":
+		// a user issues a native class whose id reads like the class path of a voucher between real chains (the nft
+		// module accepts [a-z][a-zA-Z0-9/]{2,100}) and mints a token with one of the usual ids into it.
+		// C=shape, D=token id, U: chain choices and base class
+		names := s.W.Order
+		x := names[mod(int(op.U), len(names))]
+		y := names[mod(int(op.U/4), len(names))]
+		base := StrictClasses[mod(int(op.U/16), len(StrictClasses))]
+		var class string
+		switch mod(op.C, 9) {
+		case 5:
+			class = x + "/yy/" + base
+		case 6:
+			class = base + "/" + x
+		case 7:
+			class = x + "/" + y + "/" + base
+		case 8:
+			class = base + "/v2"
+		case 0:
+			class = "nft/" + x + "/" + c.Name + "/" + base
+		case 1:
+			class = "nft/" + x + "/" + y + "/" + base
+		case 2:
+			class = "nft/" + x + "/" + y + "/" + c.Name + "/" + base
+		case 3:
+			class = "nftq/" + x + "/" + c.Name + "/" + base
+		default:
+			class = "nft/" + x + "/" + c.Name + "/" + y + "/" + base
+		}
+		if !contains(s.NFTClasses[c.Name], class) {
+			if v := s.opNFT(Op{K: "nftissue", A: op.A, B: op.B, S: class}); v != nil {
+				return v
+			}
+		}
+		for i, cl := range s.NFTClasses[c.Name] {
+			if cl == class {
+				s.Labels["path-shaped-native-class-minted"]++
+				return s.opNFT(Op{K: "nftmint", A: op.A, B: op.B, C: i, D: op.D, U: uint64(mod(op.B, world.NumUsers))})
+			}
+		}
+		return nil
 	case "nftmint":
 		cls := append([]string{}, s.NFTClasses[c.Name]...)
 		// voucher classes present on the chain are candidates too: only the transfer module may mint into them
